@@ -26,7 +26,7 @@ pub fn judge(dir: &Path, sc: &Scenario, obs: &mut Obs) -> Judge {
     // the OACK handshake itself is outside the property (C04/C08 speak about the data phase): it must not be disturbed
     let handshake_intact = !sc.handshake || matches!(sc.script.first(), Some(Sev::Pass) | None);
     // (random garbage can spell a well-formed ERROR packet: then the peer did send an ERROR and the transfer rightly ends)
-    if harmless_script && !fa.peer_error && handshake_intact && sc.after == After::Honest && sc.fates.is_empty() && fa.max_failed_per_window < 6 && sc.dally {
+    if harmless_script && !fa.peer_error && handshake_intact && sc.after == After::Honest && sc.fates.is_empty() && fa.max_failed_per_window.max(fa.max_consecutive_failed) < 6 && sc.dally {
         obs.class("completion-required");
         if !(fa.completed && fa.ended_cleanly) {
             viol!(
@@ -127,7 +127,7 @@ pub fn wrap_strategy() -> BoxedStrategy<Scenario> {
 
 pub fn run(ctx: &Ctx) {
     sim::init();
-    ctx.set_rule("the sending worker under the simulated socket with a virtual clock: windowsize in {1,2,3,4,5,8,16}, 65534, 65535 and random 1..65535 (blksize 8; files of W..W+7 blocks, fewer blocks than the window for huge windows), scripts of <=40 events placing duplicate ACKs (d=0), stale ACKs (d=1,2,...,random, never aliasing an outstanding block), partial ACKs, full ACKs, forced timeouts, lost ACKs, and deliveries after 0, 1/4, 1/2, 999/1000 and exactly 1 timeout of virtual time; then honest completion. A low-rate part runs >65536-block transfers with stale ACK numbers from behind the wrap. The receiving worker gets in-order blocks with duplicates/out-of-order blocks interleaved. Oracle on the trace: never more than windowsize blocks beyond the last acknowledged one (S3); bursts are consecutive and resume at k+1 after ACK(k) (S4); a block is re-sent only if the timeout has elapsed since the previous burst or the burst answers an advancing ACK (S5); a stale/duplicate ACK never ends the transfer (S10, no panic) and the transfer still completes afterwards; the receiver acknowledges after windowsize in-order blocks and on the final block (R3). A wire part counts the bursts of real downloads with large acknowledged windows (never more than the acknowledged windowsize outstanding). Non-trivial = >=1 stale/duplicate ACK delivered, or a burst within 5 ms of the timeout edge, or a duplicate block delivered to the receiver; distinct = distinct (scenario, trace shape).");
+    ctx.set_rule("the sending worker under the simulated socket with a virtual clock: windowsize in {1,2,3,4,5,8,16}, 65534, 65535 and random 1..65535 (blksize 8; files of W..W+7 blocks, fewer blocks than the window for huge windows), scripts of <=40 events placing duplicate ACKs (d=0), stale ACKs (d=1,2,...,random, never aliasing an outstanding block), partial ACKs, full ACKs, forced timeouts, lost ACKs, and deliveries after 0, 1/4, 1/2, 999/1000 and exactly 1 timeout of virtual time; then honest completion. A low-rate part runs >65536-block transfers with stale ACK numbers from behind the wrap. The receiving worker gets in-order blocks with duplicates/out-of-order blocks interleaved. Oracle on the trace: never more than windowsize blocks beyond the last acknowledged one (S3); bursts are consecutive and resume at k+1 after ACK(k) (S4); a block is re-sent only if the timeout has elapsed since the previous burst or the burst answers an advancing ACK (S5); a stale/duplicate ACK never ends the transfer (S10, no panic) and the transfer still completes afterwards (demanded when fewer than 6 receive attempts failed both per window and in a row, a run being ended only by an accepted in-order block or an advancing ACK); the receiver acknowledges after windowsize in-order blocks and on the final block (R3). A wire part counts the bursts of real downloads with large acknowledged windows (never more than the acknowledged windowsize outstanding). Non-trivial = >=1 stale/duplicate ACK delivered, or a burst within 5 ms of the timeout edge, or a duplicate block delivered to the receiver; distinct = distinct (scenario, trace shape).");
     ctx.assume("stale ACK numbers are generated at most 32767 behind and never equal to an outstanding block's number (16-bit aliasing)");
     let dirs = DirPool::new(ctx, "c08");
     explore(ctx, "random", ctx.tier.pick(400_000, 4_000_000), strategy, |c: &Scenario, o| dirs.with(|d| judge(d, c, o)));
